@@ -60,6 +60,8 @@ def holds(cond, observed):
         return isinstance(x, list) and any((e.get('name') if isinstance(e, dict) else e) == cond['contains_name'] for e in x)
     if 'lacks_name' in cond:
         return isinstance(x, list) and not any((e.get('name') if isinstance(e, dict) else e) == cond['lacks_name'] for e in x)
+    if 'distinct_gt' in cond:
+        return isinstance(x, list) and len({json.dumps(e, sort_keys=True) for e in x}) > cond['distinct_gt']
     if cond.get('is_null'):
         return x is None
     if cond.get('not_null'):
@@ -91,4 +93,4 @@ def run_scenarios(paths):
 if __name__ == '__main__':
     import sys
     r = run_scenarios(sys.argv[1:])
-    print(json.dumps(r, indent=1)[:6000])
+    print(json.dumps(r, indent=1))
